@@ -30,6 +30,7 @@ def check(run):
         if ev["e"] == "tod":
             sig["first_18_s"] = ev["s"] < 18
         run.report(sig, {"event": ev, "index": i})
+    run.cov["tlaps"] = core.tlaps(run, "GpsTime_proofs")
     run.cov.update({
         "traces_validated_against_impl": len(results),
         "vectors_from_tlc": len(vectors),
